@@ -224,7 +224,15 @@ func (r *Runner) exec(c model.Call) model.Obs {
 		}
 	case "pull":
 		var resp *pubsubpb.PullResponse
-		resp, err = w.Sub.Pull(ctx, &pubsubpb.PullRequest{Subscription: model.SubPath(c.Op.Sub), MaxMessages: int32(c.Op.Max), ReturnImmediately: c.Op.Tgt != "wait"})
+		pctx := ctx
+		if c.Op.Tgt == "abandon" {
+			// a blocking Pull that the CLIENT gives up after 1 s (its deadline is shorter
+			// than the server's wait)
+			var pcancel context.CancelFunc
+			pctx, pcancel = context.WithTimeout(ctx, time.Second)
+			defer pcancel()
+		}
+		resp, err = w.Sub.Pull(pctx, &pubsubpb.PullRequest{Subscription: model.SubPath(c.Op.Sub), MaxMessages: int32(c.Op.Max), ReturnImmediately: c.Op.Tgt != "wait" && c.Op.Tgt != "abandon"})
 		if err == nil {
 			for _, rm := range resp.ReceivedMessages {
 				m := model.RecvMsg{AckID: rm.AckId, Attempt: int(rm.DeliveryAttempt)}
